@@ -291,6 +291,9 @@ func (g *Gen) inputRaw(n *Node) IVal {
 			key := f.Key
 			if t, ok := f.Tags["zog"]; ok {
 				key = t
+				if t != f.Key && r.Fork(0x5c6e).P(12) {
+					key = f.Key // the schema key where the tag names the field: absent (and the caller's map stays as it is)
+				}
 			}
 			c := r.Intn(100)
 			switch {
